@@ -179,7 +179,7 @@ def _expr_leaves(expr):
             b = e
             while isinstance(b, ast.Attribute):
                 b = b.value
-            if not isinstance(b, ast.Name):
+            if not (isinstance(b, ast.Name) and b.id == 'self'):
                 todo.append(b)
         elif isinstance(e, ast.Call):
             out.append(e)
